@@ -203,6 +203,120 @@ impl C16 {
         false
     }
 
+    /// random intervals of extreme magnitude: integer rounding and scaling by tiny / huge dyadic numbers
+    fn interval_case(&self, rng: &mut Rng, mon: &mut Monitor) {
+        let zero = Q::zero();
+        // m * 2^e with a small odd-ish mantissa, so that products with dyadic scalars stay exact
+        let dyadic = |rng: &mut Rng, emin: i64, emax: i64| -> f64 {
+            let m = rng.range(1, 4097) as f64;
+            let e = rng.range(emin, emax) as i32;
+            let v = m * 2f64.powi(e);
+            if rng.bool() { -v } else { v }
+        };
+        let endpoint = |rng: &mut Rng| -> f64 {
+            match rng.below(12) {
+                0 => f64::NEG_INFINITY,
+                1 => f64::INFINITY,
+                2 => 0.0,
+                3 => *rng.pick(&[9223372036854775808.0, -9223372036854775808.0, 18446744073709551616.0, 1e19, -1e19, 2e19, 1e20, -1e20, 9007199254740992.0, -9007199254740993.0, 4294967296.5, -2147483648.5, 1e300, -1e300]),
+                4..=7 => dyadic(rng, 40, 200),
+                _ => dyadic(rng, -12, 60),
+            }
+        };
+        let (mut l, mut u) = (endpoint(rng), endpoint(rng));
+        if l > u {
+            std::mem::swap(&mut l, &mut u);
+        }
+        if l == f64::INFINITY || u == f64::NEG_INFINITY {
+            mon.facet("interval:skipped-invalid");
+            return;
+        }
+        if rng.chance(1, 6) && l.is_finite() {
+            u = l; // degenerate
+        }
+        let mut fp = Fp::new();
+        fp.u64(l.to_bits()).u64(u.to_bits());
+        if rng.bool() {
+            let (il, iu) = (l.ceil(), u.floor());
+            if il > iu {
+                mon.facet("interval:as_integer_bound:skipped-no-integer-inside");
+                return;
+            }
+            mon.eval();
+            mon.facet(if l.abs().max(u.abs()) >= 9.2e18 && (l.is_finite() || u.is_finite()) { "interval:as_integer_bound:finite-end-beyond-2^63" } else { "interval:as_integer_bound" });
+            mon.nontrivial(fp.u64(1).finish());
+            match probe(|| mk(l, u).as_integer_bound()) {
+                Err(p) => mon.violation("C16.panic:as_integer_bound", format!("[{l:e}, {u:e}].as_integer_bound() panicked: {} at {}", p.message, p.location)),
+                Ok(res) => {
+                    let mut ints = vec![];
+                    if il.is_finite() {
+                        ints.extend([il, il + 1.0, il + 4096.0]);
+                    }
+                    if iu.is_finite() {
+                        ints.extend([iu, iu - 1.0, iu - 4096.0]);
+                    }
+                    if il.is_finite() && iu.is_finite() {
+                        ints.push((il / 2.0 + iu / 2.0).floor());
+                    }
+                    if !il.is_finite() && !iu.is_finite() {
+                        ints.extend([0.0, -1e19, 1e19]);
+                    }
+                    for z in ints {
+                        if z >= l && z <= u && z == z.trunc() && !contains(&res, &q(z), &zero) {
+                            mon.violation("C16.as_integer_bound:integer-lost", format!("[{l:e}, {u:e}].as_integer_bound() = {res:?} lost the integer {z:e}"));
+                            break;
+                        }
+                    }
+                    if res.lower().is_finite() && res.lower() != res.lower().trunc() || res.upper().is_finite() && res.upper() != res.upper().trunc() {
+                        mon.violation("C16.as_integer_bound:not-integral", format!("[{l:e}, {u:e}].as_integer_bound() = {res:?}"));
+                    }
+                }
+            }
+        } else {
+            // scaling by a non-zero dyadic number between 2^-300 and 2^60 (exact products)
+            let s = if rng.bool() { dyadic(rng, -300, -50) } else { dyadic(rng, -40, 60) };
+            // the product must be a normal double and exact, so that zero tolerance is the right verdict
+            let finite_ok = |x: f64| !x.is_finite() || (x == 0.0) || { let p = x * s; p.is_finite() && p.abs() >= 1e-290 && q(p) == q(x) * q(s) };
+            if !finite_ok(l) || !finite_ok(u) {
+                mon.facet("interval:scale:skipped-inexact-product-or-overflow");
+                return;
+            }
+            mon.evals(2);
+            mon.facet(if s.abs() <= f64::EPSILON { "interval:scale:|s|<=EPSILON" } else { "interval:scale" });
+            mon.nontrivial(fp.u64(2).u64(s.to_bits()).finish());
+            for (side, r) in [("bound*f64", probe(|| mk(l, u) * s)), ("f64*bound", probe(|| s * mk(l, u)))] {
+                match r {
+                    Err(p) => mon.violation("C16.panic:scale", format!("[{l:e}, {u:e}] scaled by {s:e} ({side}) panicked: {} at {}", p.message, p.location)),
+                    Ok(res) => {
+                        let mut pts = vec![];
+                        if l.is_finite() {
+                            pts.push(l);
+                        }
+                        if u.is_finite() {
+                            pts.push(u);
+                        }
+                        if l <= 0.0 && 0.0 <= u {
+                            pts.push(0.0);
+                        }
+                        if !l.is_finite() {
+                            pts.push(if u.is_finite() { u - 1e30 } else { -1e30 });
+                        }
+                        if !u.is_finite() {
+                            pts.push(if l.is_finite() { l + 1e30 } else { 1e30 });
+                        }
+                        for x in pts {
+                            let v = q(x) * q(s);
+                            if !contains(&res, &v, &zero) {
+                                mon.violation("C16.enclosure:scale", format!("[{l:e}, {u:e}] * {s:e} ({side}) = {res:?} does not contain {x:e}*{s:e} = {v}"));
+                                return;
+                            }
+                        }
+                    }
+                }
+            }
+        }
+    }
+
     fn grid_size() -> u64 {
         let n = grid().len() as u64;
         2 * n * n + n * 9 + n * 10 + (4 * 6 * 4 * 6 + 8)
@@ -409,7 +523,7 @@ impl Property for C16 {
         }
     }
     fn rule(&self) -> &'static str {
-        "the first G cases enumerate the grid exhaustively: all 43 valid intervals with endpoints in {-inf,-3,-2,-1/2,0,1/2,2,3,+inf}; every ordered pair under + and *, every interval under pow(0..8), under scaling by 10 non-zero scalars of both signs (0.5..2^20, 2^-20) from both sides, and as_integer_bound on intervals that contain an integer (fractional ends, +-1e-7 perturbations, half-infinite); each result must contain op(x,y) for all sample points (finite ends, interior, zero, +-2^20 on unbounded sides) with zero tolerance, without panicking. The remaining cases alternate: evaluate_bound of a hostile function message of degree <= 4 over a box drawn from the grid (D) or random reals (R), some ids without bound, checked at 40 corner/face/interior points against the exact polynomial (zero tolerance in D, 2^-45 relative to the magnitude sum in R); and content_factor on functions whose coefficients are p/q (q<=60, lcm<=1e7) against lcm(q)/gcd(p) within 1 ulp. Non-trivial = non-constant function / >= 2 coefficients; distinct = fingerprint of (function, box)."
+        "the first G cases enumerate the grid exhaustively: all 43 valid intervals with endpoints in {-inf,-3,-2,-1/2,0,1/2,2,3,+inf}; every ordered pair under + and *, every interval under pow(0..8), under scaling by 10 non-zero scalars of both signs (0.5..2^20, 2^-20) from both sides, and as_integer_bound on intervals that contain an integer (fractional ends, +-1e-7 perturbations, half-infinite); each result must contain op(x,y) for all sample points (finite ends, interior, zero, +-2^20 on unbounded sides) with zero tolerance, without panicking. One remaining case in eight draws an interval with endpoints of extreme magnitude (m*2^e up to 2^212, +-2^63, 2^64, 1e19..1e300, infinite, degenerate) and either rounds it to integer endpoints (integers at both ends, 1 and 4096 inside, and the middle must be kept) or scales it from both sides by a non-zero dyadic number between 2^-300 and 2^72 (exact products; ends, zero and a far point on unbounded sides must be enclosed). The other cases alternate: evaluate_bound of a hostile function message of degree <= 4 over a box drawn from the grid (D) or random reals (R), some ids without bound, checked at 40 corner/face/interior points against the exact polynomial (zero tolerance in D, 2^-45 relative to the magnitude sum in R); and content_factor on functions whose coefficients are p/q (q<=60, lcm<=1e7) against lcm(q)/gcd(p) within 1 ulp. Non-trivial = non-constant function / >= 2 coefficients; distinct = fingerprint of (function, box)."
     }
     fn assumptions(&self) -> Vec<&'static str> {
         vec!["scaling by 0 and magnitudes that overflow f64 are outside the statement", "as_integer_bound is only called on intervals that contain an integer"]
@@ -425,7 +539,9 @@ impl Property for C16 {
             }
             return;
         }
-        if k % 3 == 0 {
+        if k % 8 == 7 {
+            self.interval_case(rng, mon)
+        } else if k % 3 == 0 {
             self.content_case(rng, mon)
         } else {
             self.function_case(rng, mon)
